@@ -3,6 +3,7 @@ CONSTANTS
   MaxLen = 4
   MaxDepth = 3
   Export = TRUE
+  Variants = FALSE
 SPECIFICATION Spec
 INVARIANT TypeOK
 INVARIANT AliasesAgree
